@@ -1,0 +1,125 @@
+//!
+//! verification hooks used by the external monitoring harness.
+//! compiled only with the `verif` feature, never in a normal build
+//!
+//! - failpoints: named instrumentation points of the write path that can abort the process,
+//!   pause it forever (so that a parent process can kill it) or inject a statement error at the k-th hit
+//! - events: a process global append only log of (kind, connection, room) tuples
+//!
+use std::collections::HashMap;
+use std::sync::Mutex;
+
+#[derive(Clone, Debug, PartialEq, Eq)]
+pub enum FailAction {
+    Abort,
+    Pause(String),
+    Error,
+}
+
+struct FailState {
+    armed: Option<(String, u64, FailAction)>,
+    hits: HashMap<String, u64>,
+    fired: u64,
+}
+
+lazy_static::lazy_static! {
+    static ref FAIL: Mutex<FailState> = Mutex::new(FailState {
+        armed: None,
+        hits: HashMap::new(),
+        fired: 0,
+    });
+    static ref EVENTS: Mutex<Vec<(u64, String, usize, [u8; 16])>> = Mutex::new(Vec::new());
+}
+
+pub fn arm(name: &str, hit: u64, action: FailAction) {
+    let mut st = FAIL.lock().unwrap();
+    st.armed = Some((name.to_string(), hit, action));
+    st.hits.clear();
+}
+
+pub fn disarm() {
+    let mut st = FAIL.lock().unwrap();
+    st.armed = None;
+}
+
+pub fn reset_hits() {
+    FAIL.lock().unwrap().hits.clear();
+}
+
+pub fn hits() -> HashMap<String, u64> {
+    FAIL.lock().unwrap().hits.clone()
+}
+
+pub fn fired() -> u64 {
+    FAIL.lock().unwrap().fired
+}
+
+fn trigger(name: &str) -> Option<FailAction> {
+    let mut st = FAIL.lock().unwrap();
+    let count = st.hits.entry(name.to_string()).or_insert(0);
+    *count += 1;
+    let count = *count;
+    let fire = match &st.armed {
+        Some((n, k, _)) => n == name && *k == count,
+        None => false,
+    };
+    if fire {
+        st.fired += 1;
+        let action = st.armed.take().unwrap().2;
+        Some(action)
+    } else {
+        None
+    }
+}
+
+fn crash(action: &FailAction) {
+    match action {
+        FailAction::Abort => std::process::abort(),
+        FailAction::Pause(path) => {
+            let _ = std::fs::write(path, b"paused");
+            loop {
+                std::thread::sleep(std::time::Duration::from_secs(3600));
+            }
+        }
+        FailAction::Error => {}
+    }
+}
+
+///
+/// instrumentation point that can only crash or pause the process
+///
+pub fn failpoint(name: &str) {
+    if let Some(action) = trigger(name) {
+        crash(&action);
+    }
+}
+
+///
+/// instrumentation point placed where the surrounding code can receive a statement error
+///
+pub fn failpoint_err(name: &str) -> std::result::Result<(), rusqlite::Error> {
+    if let Some(action) = trigger(name) {
+        crash(&action);
+        if action == FailAction::Error {
+            return Err(rusqlite::Error::SqliteFailure(
+                rusqlite::ffi::Error::new(rusqlite::ffi::SQLITE_FULL),
+                Some(format!("verif injected failure at {}", name)),
+            ));
+        }
+    }
+    Ok(())
+}
+
+pub fn event(kind: &str, conn: usize, room: [u8; 16]) {
+    let mut ev = EVENTS.lock().unwrap();
+    let seq = ev.len() as u64;
+    ev.push((seq, kind.to_string(), conn, room));
+}
+
+pub fn events() -> Vec<(u64, String, usize, [u8; 16])> {
+    EVENTS.lock().unwrap().clone()
+}
+
+pub fn clear_events() {
+    EVENTS.lock().unwrap().clear();
+}
